@@ -24,6 +24,7 @@ This file is named mock_ instead of mock so that it can import the standard mock
 """
 
 import inspect
+import sys
 from unittest import mock
 
 from .decorators import asynq
@@ -148,10 +149,17 @@ class _PatchAsync(_patch):
         mock_fn = super(_PatchAsync, self).__enter__()
         # so we can also mock non-functions for compatibility
         if callable(mock_fn):
-            async_fn = _AsynqWrapper(mock_fn)
-            mock_fn.asynq = async_fn
-            setattr(mock_fn, "async", async_fn)
-            mock_fn.asyncio = _AsyncioWrapper(mock_fn)
+            try:
+                async_fn = _AsynqWrapper(mock_fn)
+                mock_fn.asynq = async_fn
+                setattr(mock_fn, "async", async_fn)
+                mock_fn.asyncio = _AsyncioWrapper(mock_fn)
+            except:
+                # e.g. new_callable produced a callable that does not accept attributes; the
+                # attribute is already replaced at this point, so undo the patch like
+                # mock._patch.__enter__ does when it fails half way
+                if not self.__exit__(*sys.exc_info()):
+                    raise
         return mock_fn
 
     def copy(self):
